@@ -303,6 +303,7 @@ type rootRec struct {
 	hash    common.Hash
 	snap    map[string][]byte
 	pinned  bool // committed into the current trie.Database and not dereferenced since: must reopen through it
+	refs    int  // references taken on the root from outside (Reference(root, {})) and not yet given back
 	durable bool // written by a completed Database.Commit: must reopen after every restart and crash
 }
 
@@ -571,6 +572,7 @@ func runHistory(t *rapid.T, tamper bool) {
 		var durables []*rootRec
 		for _, r := range roots {
 			r.pinned = r.durable
+			r.refs = 0
 			kind := "volatile"
 			if r == interrupted {
 				kind = "interrupted"
@@ -690,6 +692,9 @@ func runHistory(t *rapid.T, tamper bool) {
 		case "ref":
 			rec(op, "root#%d", o.R%len(roots))
 			tdb.Reference(r.hash, common.Hash{})
+			if r.pinned && !r.durable && r.hash != emptyRoot {
+				r.refs++ // (a reference on a root that is not in the dirty cache is not recorded by the database)
+			}
 		case "deref":
 			// the trie in use keeps unresolved references into its base root: the node never collects that one
 			if r.hash == base || r.hash == emptyRoot {
@@ -697,7 +702,14 @@ func runHistory(t *rapid.T, tamper bool) {
 			}
 			rec(op, "root#%d", o.R%len(roots))
 			tdb.Dereference(r.hash)
-			r.pinned = r.durable // the model does not count references: any dereference releases the root
+			// references on a root are counted: it is released when the last one is given back (or when none was taken)
+			if r.refs > 0 {
+				r.refs--
+				simkit.Global.Inc("probe.dereference_of_multiply_referenced_root")
+			}
+			if r.refs == 0 {
+				r.pinned = r.durable
+			}
 			simkit.Global.Inc("fault.dereference")
 		case "reopen":
 			rec(op, "root#%d pinned=%v", o.R%len(roots), r.pinned)
